@@ -242,6 +242,14 @@ func (c *Ctx) c13Proof() {
 			}
 			k, _ := constArgStr(gets[0], 1)
 			r.Check(c.presenceChecked(call.(ssa.Instruction), gets[0]), "C13.enrol-value", name, what+".arg", pos, "value enrolled is session["+k+"], present", "enrolment value session["+k+"] is used without a presence check")
+			// … a recovery code proves the owner, not the number/secret being enrolled:
+			// where the proof has a recovery-code alternative, that alternative must be
+			// closed on the enrolment page
+			for _, cr := range creds {
+				if strings.Contains(cr.Kind, "UseRecoveryCode") && cr.Check != nil {
+					c.recoveryClosedOnEnrol(fn, call, cr.Check, what)
+				}
+			}
 			// … and for TOTP the code was validated against that very secret
 			for _, cr := range flatten(creds) {
 				if cr.Kind == "totp-code" {
@@ -395,4 +403,89 @@ func (c *Ctx) c13Email() {
 			}
 		}
 	}
+}
+
+// recoveryClosedOnEnrol: effect (an enrolment) in fn is reachable behind a
+// recovery-code check use. The recovery code submitted must be empty whenever
+// the handler runs for the enrolment page: every place that reads it from the
+// request lies behind a Page == <other page> test.
+func (c *Ctx) recoveryClosedOnEnrol(fn *ssa.Function, effect, use ssa.CallInstruction, what string) {
+	r := c.R
+	name := FuncName(fn)
+	pos := posf(c, effect)
+	pages, known := pageFacts(effect.(ssa.Instruction))
+	if !known {
+		r.Unknown("C13.enrol-proof", name, what+"|recovery alternative", pos, "the enrolment can be authorised by a recovery code and the page it happens on is not established by a Page == <constant> test")
+		return
+	}
+	onEnrolPage := func(s string) bool {
+		for _, p := range pages {
+			if p == s {
+				return true
+			}
+		}
+		return false
+	}
+	// where the code comes from
+	type site struct {
+		fn   *ssa.Function
+		call ssa.CallInstruction
+	}
+	var reads []site
+	bad := ""
+	var collect func(f *ssa.Function, v ssa.Value, depth int)
+	collect = func(f *ssa.Function, v ssa.Value, depth int) {
+		if depth > 3 {
+			bad = "call chain too deep"
+			return
+		}
+		for _, o := range c.rawOrigins(v) {
+			switch o.Kind {
+			case "const":
+			case "call":
+				if call, ok := o.V.(ssa.CallInstruction); ok && call.Common().IsInvoke() && call.Common().Method.Name() == "GetRecoveryCode" {
+					reads = append(reads, site{f, call})
+				} else {
+					bad = "recovery code comes from " + o.Name
+				}
+			case "param":
+				p := o.V.(*ssa.Parameter)
+				idx := paramIndex(p)
+				callers := c.Callers(f)
+				if len(callers) == 0 || c.isEntry(f) {
+					bad = "recovery code is a parameter of an entry point"
+					continue
+				}
+				for _, cs := range callers {
+					collect(cs.Parent(), Arg(cs, idx), depth+1)
+				}
+			default:
+				bad = "recovery code comes from " + o.String()
+			}
+		}
+	}
+	collect(fn, Arg(use, 1), 0)
+	if bad != "" {
+		r.Unknown("C13.enrol-proof", name, what+"|recovery alternative", pos, "origin of the recovery code not understood: "+bad)
+		return
+	}
+	for _, rd := range reads {
+		q := PathQuery{StartBlock: rd.fn.Blocks[0], Goal: func(i ssa.Instruction) bool { return i == rd.call.(ssa.Instruction) }, Prune: func(from, to *ssa.BasicBlock) bool {
+			f, ok := EdgeFact(from, to)
+			if !ok {
+				return false
+			}
+			rel := f.Rel()
+			if rel.Op != token.EQL || fieldLoadName(rel.X) != "Page" {
+				return false
+			}
+			s, isC := ConstStr(rel.Y)
+			return isC && !onEnrolPage(s)
+		}}
+		if p := q.Find(); p != nil {
+			r.Bad("C13.enrol-proof", name, what+"|recovery alternative", posf(c, rd.call), "on the enrolment page ("+strings.Join(pages, ",")+") the submitted recovery code is read and can authorise the enrolment: the number is enrolled without the code that was sent to it", c.P.DescribePath(p)...)
+			return
+		}
+	}
+	r.Ok("C13.enrol-proof", name, what+"|recovery alternative", pos, sprintf("the recovery code is read from the request only behind a Page test for another page (%d read sites)", len(reads)))
 }
